@@ -53,14 +53,16 @@ type c12Case struct {
 	CancelDelay int64     `json:"canceldelay"`
 	StartDelay  int64     `json:"startdelay"`
 
-	Trace  [][]int64 `json:"trace"` // [0,k,ts,te,sameMsg] | [1,n,d,mr,errOK] | [2,n,d]
-	Outs   []int64   `json:"outs"`
-	Err    int64     `json:"err"`
-	TRet   int64     `json:"tret"`
-	CPre   int64     `json:"cpre"` // -1 = never cancelled
-	CPost  int64     `json:"cpost"`
-	Done   bool      `json:"done"`
-	Settle int       `json:"settle"` // router mode: 1 acked, 2 nacked, 0 unsettled; -1 = not run through a Router
+	Trace     [][]int64 `json:"trace"` // [0,k,ts,te,sameMsg] | [1,n,d,mr,errOK] | [2,n,d]
+	Outs      []int64   `json:"outs"`
+	Err       int64     `json:"err"`
+	TRet      int64     `json:"tret"`
+	CPre      int64     `json:"cpre"` // -1 = never cancelled
+	CPost     int64     `json:"cpost"`
+	Done      bool      `json:"done"`
+	Pub       int       `json:"pub"`       // router mode: publisher behaviour 0 accept, 1 error
+	Published [][]int64 `json:"published"` // router mode: the Publish calls carrying this message's outputs
+	Settle    int       `json:"settle"`    // router mode: 1 acked, 2 nacked, 0 unsettled; -1 = not run through a Router
 
 	mu       sync.Mutex
 	msg      *message.Message
@@ -388,6 +390,9 @@ func (g *c12Group) runRouter(cases []*c12Case, retryMw message.HandlerMiddleware
 	}
 	sub := script.NewSubscriber(true)
 	pub := &script.Publisher{}
+	if cases[0].Pub == 1 {
+		pub.OnPublish = func(int, string, []*message.Message) error { return fmt.Errorf("scripted publish failure") }
+	}
 	h := router.AddHandler("h", "in", sub, "out", pub, g.handler)
 	recorder := func(next message.HandlerFunc) message.HandlerFunc {
 		return func(msg *message.Message) ([]*message.Message, error) {
@@ -436,6 +441,26 @@ func (g *c12Group) runRouter(cases []*c12Case, retryMw message.HandlerMiddleware
 	wg.Wait()
 	cancel()
 	_ = router.Close()
+	for _, call := range pub.Snapshot() {
+		if len(call.Msgs) == 0 {
+			continue
+		}
+		for _, c := range cases {
+			c.mu.Lock()
+			if _, ok := c.produced[call.Msgs[0]]; ok {
+				ids := []int64{}
+				for _, m := range call.Msgs {
+					if id, ok := c.produced[m]; ok {
+						ids = append(ids, id)
+					} else {
+						ids = append(ids, 9999)
+					}
+				}
+				c.Published = append(c.Published, ids)
+			}
+			c.mu.Unlock()
+		}
+	}
 }
 
 func c12RunGroup(cases []*c12Case) {
@@ -651,7 +676,12 @@ func c12Generate(seed int64, scale int) [][]*c12Case {
 			if cfg.MR > 5 {
 				cfg.MR = 5
 			}
+			pubBeh := 0
+			if i%3 == 2 {
+				pubBeh = 1
+			}
 			add("router", "router", cfg, 2+rng.Intn(4), func(i int, c *c12Case) {
+				c.Pub = pubBeh
 				c.Script = c12randScript(rng, cfg.MR)
 				c.StartDelay = int64(i) * c12pick64(rng, 0, 2, 5, 9) * c12ms
 			})
